@@ -146,6 +146,7 @@ class Family(object):
             ('L1.S1', lambda k: self.L1.evaluateS1(xs[k])), ('L2.call', lambda k: self.L2(xs[k])),
             ('L2.S1', lambda k: self.L2.evaluateS1(xs[k])), ('P1.call', lambda k: self.P1(xs[k])),
             ('P1.S1', lambda k: self.P1.evaluateS1(xs[k])),
+            ('P1.initial', lambda k: self.P1.sample_initial_parameters(n_samples=2, seed=k)),
             ('PM.sample', lambda k: self.PM.sample(xs[k], tt, n_samples=3, seed=s['seed'] + k, return_df=False)),
             ('M.simulate', lambda k: self.M.simulate(xs[k][:ll0['n_par']], np.array([0.5, 1.0, 2.0]))),
         ]
@@ -158,7 +159,7 @@ class Family(object):
                              for j, n in enumerate(lnames)}) for k in range(3)]
         calls.append(('L1.pointwise_dataset',
                       lambda k: np.asarray(chi.compute_pointwise_loglikelihood(self.L1, dsets[k], param_map=dict(pmap)).values)))
-        self.derived_independent = {'L1.call', 'L1.pointwise', 'L1.S1', 'L2.call', 'L2.S1', 'P1.call', 'P1.S1',
+        self.derived_independent = {'L1.call', 'L1.pointwise', 'L1.S1', 'L2.call', 'L2.S1', 'P1.call', 'P1.S1', 'P1.initial',
                                     'PM.sample', 'L1.pointwise_dataset'}
         if h['n_ids'] >= 2:
             # hierarchical objects over freshly built likelihoods of the same user models
@@ -181,6 +182,16 @@ class Family(object):
                                                          return_df=False, covariates=cov)),
             ]
             self.derived_independent |= {'H.call', 'H.S1', 'HP.call', 'HP.S1', 'PPM.sample'}
+        # seeded initial points of a hierarchical posterior whose priors have positive support (the seeds are 0, 1, 2:
+        # zero is a seed like any other)
+        import pints
+        lls2 = [chi.LogLikelihood(self.M, self.ems, d[0], d[1]) for d in data[:2]]
+        nd2 = lls2[0].n_parameters()
+        self.HP2 = chi.HierarchicalLogPosterior(
+            chi.HierarchicalLogLikelihood(lls2, chi.LogNormalModel(n_dim=nd2)),
+            pints.ComposedLogPrior(*[pints.LogNormalLogPrior(0.0, 0.3) for _ in range(2 * nd2)]))
+        calls.append(('HP2.initial', lambda k: self.HP2.sample_initial_parameters(n_samples=2, seed=k)))
+        self.derived_independent.add('HP2.initial')
         # reduced error model over one of the user's error models (reference semantics)
         em0 = ref.em_class(ll0['ems'][0]['kind'])()
         npar = ref.EM_NPAR[ll0['ems'][0]['kind']]
@@ -290,11 +301,12 @@ class Family(object):
             ('L1.S1', lambda k: self.L1.evaluateS1(xs[k])), ('L2.call', lambda k: self.L2(xs[k])),
             ('L2.S1', lambda k: self.L2.evaluateS1(xs[k])), ('P1.call', lambda k: self.P1(xs[k])),
             ('P1.S1', lambda k: self.P1.evaluateS1(xs[k])),
+            ('P1.initial', lambda k: self.P1.sample_initial_parameters(n_samples=2, seed=k)),
             ('PM.sample', lambda k: self.PM.sample(xs[k], tt, n_samples=2, seed=s['seed'] + k, return_df=False)),
             ('PM.regimen', lambda k: self.PM.get_dosing_regimen(final_time=2.0 + k)),
             ('M.simulate', lambda k: self.M.simulate(xs[k][:n_par], np.array([0.3, 0.9, 1.7]))),
         ]
-        self.derived_independent = {'L1.call', 'L1.pointwise', 'L1.S1', 'L2.call', 'L2.S1', 'P1.call', 'P1.S1',
+        self.derived_independent = {'L1.call', 'L1.pointwise', 'L1.S1', 'L2.call', 'L2.S1', 'P1.call', 'P1.S1', 'P1.initial',
                                     'PM.sample', 'PM.regimen'}
 
     # -- mutations of the USER models -----------------------------------------------------------
